@@ -233,6 +233,47 @@ func suiteC01base(c *Ctx) []Suite {
 			})
 			return op, msg
 		}),
+		{Name: "roundtrip/header-only-and-smallest-items", Gen: func(c *Ctx) []Case {
+			// messages that are exactly a header (no item) and messages with the smallest items, for
+			// session ids at the ends of the range and stream/function/wait at their ends: what is
+			// decoded is a data message with the same fields
+			var out []Case
+			items := []*Node{{Kind: "E"}, {Kind: "L"}, {Kind: "A"}, {Kind: "B"}, {Kind: "U", W: 1, Slots: []Slot{{U: 7}}}}
+			for _, sid := range []int{0, 1, 0x00FF, 0x0100, 0x7FFF, 0x8000, 0xFF00, 0xFFFE, 0xFFFF, c.R.Intn(65536)} {
+				for _, sf := range [][3]int{{1, 1, 1}, {1, 0, 0}, {0, 0, 0}, {127, 255, 1}, {127, 255, 0}, {2, 17, 1}, {9, 9, 0}, {64, 2, 0}, {c.R.Intn(128), c.R.Intn(256) | 1, c.R.Intn(2)}} {
+					for k, it := range items {
+						if k > 0 && c.R.Intn(3) > 0 {
+							continue
+						}
+						m := &MsgDesc{Item: it, Name: "", S: sf[0], F: sf[1], W: sf[2], Dir: "H->E", Sid: sid, Sys: []byte{byte(c.R.Intn(256)), byte(c.R.Intn(256)), byte(c.R.Intn(256)), byte(c.R.Intn(256))}}
+						var msg *ast.DataMessage
+						op := ""
+						if c.R.Intn(2) == 0 {
+							m.HSMS = true
+							msg, _ = buildMsg(m)
+							op = "mprog " + m.newStep()
+						} else {
+							// stamped later, as a template is
+							op = fmt.Sprintf("mprog %s | sess %d %s", m.newStep(), m.Sid, hx(m.Sys))
+							safely(func() {
+								if m0, p := buildMsg(m); !p {
+									msg = m0.SetSessionIDAndSystemBytes(m.Sid, m.Sys)
+								}
+							})
+						}
+						cs := Case{Op: op, Nontrivial: true, Tags: []string{fmt.Sprintf("header-only:%v sid:%#x", k == 0, sid)}}
+						if msg == nil {
+							cs.Oracle = "harness could not build a valid complete message (factory panicked on in-domain input)"
+						} else {
+							cs.Oracle = roundTripOracle(msg)
+							out = append(out, Case{Op: "dec " + hx(msg.ToBytes()), Tags: []string{"dec-of-encoded"}})
+						}
+						out = append(out, cs)
+					}
+				}
+			}
+			return out
+		}},
 		{Name: "roundtrip/completed-templates", Gen: func(c *Ctx) []Case {
 			// complete messages reached through templates: variables filled in one or two
 			// steps, the session set before, between or after the fills, the wait bit decided
@@ -469,6 +510,78 @@ func suiteC02(c *Ctx) []Suite {
 				for _, tmpl := range []*Node{{Kind: "AV", Name: "v", Min: 0, Max: -1},
 					{Kind: "L", Slots: []Slot{{Child: &Node{Kind: "AV", Name: "v", Min: 0, Max: -1}}, {Child: &Node{Kind: "U", W: 1, Slots: []Slot{{U: 7}}}}}}} {
 					out = append(out, Case{Op: "fillitem " + tmpl.Proto() + " | 1 " + hxs("v") + " " + strTok(s), Decisive: true, Nontrivial: true, Tags: []string{"ascii-domain-fill"}}.fields("bytes"))
+				}
+			}
+			return out
+		}},
+		{Name: "wire/filled-templates", Gen: func(c *Ctx) []Case {
+			// items completed by filling a template encode the values they were filled with - also
+			// after the same template was filled again with other values (the harness does that for
+			// every fill), and in the copies an ellipsis makes
+			var out []Case
+			closedVal := func(n *Node) FillVal {
+				fv := genFillVal(c.R, n, 0, nil)
+				for len(fv.Open) > 0 || fv.Slot == nil {
+					fv = genFillVal(c.R, n, 0, nil)
+				}
+				return fv
+			}
+			for i := 0; i < c.N(700); i++ {
+				names := &nameGen{}
+				k := arrayKinds[c.R.Intn(len(arrayKinds))]
+				n := genArray(c.R, &GenOpt{MaxSlots: 5, PVar: 0.6, names: names}, k.k, k.w)
+				tmpl := n
+				switch i % 4 {
+				case 1:
+					tmpl = &Node{Kind: "L", Slots: []Slot{{Child: n}, {Child: &Node{Kind: "A", Str: []byte("t")}}}}
+				case 2:
+					tmpl = &Node{Kind: "L", Slots: []Slot{{Child: &Node{Kind: "L", Slots: []Slot{{Child: n}}}}, {Child: &Node{Kind: "U", W: 1, Slots: []Slot{{U: 7}}}}}}
+				}
+				var vars []varRef
+				collectVars(tmpl, &vars)
+				if len(vars) == 0 {
+					continue
+				}
+				asg := map[string]FillVal{}
+				var keys []string
+				for _, v := range vars {
+					asg[v.name] = closedVal(v.node)
+					keys = append(keys, v.name)
+				}
+				op := "fillitem " + tmpl.Proto() + " | " + envTokens(asg, keys)
+				impl := implEval(op)
+				cs := Case{Op: op, Impl: impl, Decisive: true, Nontrivial: true, Tags: []string{"filled-template:" + k.k}}.fields(itemKeys)
+				if direct := substitute(tmpl, asg); direct != nil {
+					if want, _ := implItem(direct); project(lastField(impl), "bytes") != project(want, "bytes") {
+						cs.Oracle = "the filled template encodes differently from the item built with the values in place: " + firstDiff(project(lastField(impl), "bytes"), project(want, "bytes"))
+					}
+				}
+				out = append(out, cs)
+			}
+			for _, k := range arrayKinds {
+				for cnt := 1; cnt <= 3; cnt++ {
+					for _, key := range []string{"...", "...[0]"} {
+						elem := &Node{Kind: k.k, W: k.w, Slots: []Slot{{IsVar: true, Name: "f"}}}
+						tmpl := &Node{Kind: "L", Slots: []Slot{{Child: elem}, {IsVar: true, Name: key}}}
+						asg := map[string]FillVal{key: {Tok: sintTok(0, int64(cnt))}}
+						keys := []string{key}
+						direct := &Node{Kind: "L"}
+						for j := 0; j <= cnt; j++ {
+							nm := fmt.Sprintf("f[%d]", j)
+							asg[nm] = closedVal(elem)
+							keys = append(keys, nm)
+							direct.Slots = append(direct.Slots, Slot{Child: &Node{Kind: k.k, W: k.w, Slots: []Slot{*asg[nm].Slot}}})
+						}
+						for _, op := range []string{"fillitem " + tmpl.Proto() + " | " + envTokens(asg, keys),
+							"fillitem " + tmpl.Proto() + " | " + envTokens(asg, keys[:1]) + " | " + envTokens(asg, keys[1:])} {
+							impl := implEval(op)
+							cs := Case{Op: op, Impl: impl, Decisive: true, Nontrivial: true, Tags: []string{"filled-ellipsis-copies:" + k.k}}.fields(itemKeys)
+							if want, _ := implItem(direct); project(lastField(impl), "bytes") != project(want, "bytes") {
+								cs.Oracle = "the copies an ellipsis made encode other values than they were filled with: " + firstDiff(project(lastField(impl), "bytes"), project(want, "bytes"))
+							}
+							out = append(out, cs)
+						}
+					}
 				}
 			}
 			return out
@@ -851,6 +964,92 @@ func suiteC13base(c *Ctx) []Suite {
 					}
 				}
 				out = append(out, Case{Detail: fmt.Sprintf("sweep %s: %d sizes (stride %d)", f, cnt, stride), Oracle: bad, Nontrivial: true, Tags: []string{fmt.Sprintf("swept-sizes:%s:%d", f, cnt)}})
+			}
+			return out
+		}},
+		{Name: "header/encodings-kept-in-a-table", Gen: func(c *Ctx) []Case {
+			// real items of every format at sizes around the length-byte boundaries, visited in
+			// descending and then ascending order; the encodings are collected first and their length
+			// fields checked afterwards, as a sender does that prepares several items before it sends
+			var out []Case
+			mk := func(f string, n int) ast.ItemNode {
+				args := make([]interface{}, n)
+				switch f {
+				case "list":
+					for i := range args {
+						args[i] = ast.NewBooleanNode(true)
+					}
+					return ast.NewListNode(args...)
+				case "ascii":
+					return ast.NewASCIINode(strings.Repeat("q", n))
+				case "boolean":
+					for i := range args {
+						args[i] = i%2 == 0
+					}
+					return ast.NewBooleanNode(args...)
+				case "binary":
+					for i := range args {
+						args[i] = i % 251
+					}
+					return ast.NewBinaryNode(args...)
+				}
+				for i := range args {
+					args[i] = i % 100
+				}
+				switch f[0] {
+				case 'i':
+					return ast.NewIntNode(fmtWidth[f], args...)
+				case 'u':
+					return ast.NewUintNode(fmtWidth[f], args...)
+				}
+				for i := range args {
+					args[i] = float64(i % 100)
+				}
+				return ast.NewFloatNode(fmtWidth[f], args...)
+			}
+			for _, f := range fmtNames {
+				w := fmtWidth[f]
+				var sizes []int
+				for _, bytesLen := range []int{65536 + 8, 65536, 65535, 65528, 264, 256, 255, 248, 24, 8, 0} {
+					if n := bytesLen / w; len(sizes) == 0 || sizes[len(sizes)-1] != n {
+						sizes = append(sizes, n)
+					}
+				}
+				if f == "list" {
+					sizes = []int{300, 256, 255, 3, 1, 0}
+				}
+				order := append([]int{}, sizes...)
+				for i := len(sizes) - 1; i >= 0; i-- {
+					order = append(order, sizes[i])
+				}
+				order = append(order, 3, 1, 3)
+				type row struct {
+					n int
+					b []byte
+				}
+				var table []row
+				res := ""
+				if pan, _ := safely(func() {
+					for _, n := range order {
+						table = append(table, row{n, mk(f, n).ToBytes()})
+					}
+				}); pan {
+					res = "a factory or ToBytes panicked on an item within the limit"
+				}
+				for _, r := range table {
+					if res != "" {
+						break
+					}
+					want, _ := unhx(closedFormHeader(f, r.n))
+					total := len(want) + r.n*w
+					if f == "list" {
+						total = len(want) + 3*r.n
+					}
+					if !bytes.HasPrefix(r.b, want) || len(r.b) != total {
+						res = fmt.Sprintf("%s item of %d elements, looked at after the other items were encoded: starts % x and has %d bytes, want header % x and %d bytes", f, r.n, r.b[:imin(len(r.b), 4)], len(r.b), want, total)
+					}
+				}
+				out = append(out, Case{Detail: fmt.Sprintf("%s: %d encodings collected, then checked", f, len(order)), Oracle: res, Nontrivial: true, Tags: []string{"encodings-table:" + f}})
 			}
 			return out
 		}},
